@@ -124,6 +124,11 @@ MUTANTS = [
  ("ok-clip-var", "C14", "", "html/document/draw.go", "\t\t\tif len(clippedBoxes) == 0 {\n", "\t\t\tif n := len(clippedBoxes); n == 0 {\n"),
  ("ok-space-formfeed", "C06", "", "css/parser/tokenizer.go", "return r == ' ' || r == '\\n' || r == '\\t'", "return r == ' ' || r == '\\n' || r == '\\t' || r == '\\f'"),
  ("ok-matrix-reorder", "C17", "", "matrix/matrix.go", "out.A = t1.A*t2.A + t1.C*t2.B", "out.A = t1.C*t2.B + t2.A*t1.A"),
+ # --- session 5: behaviour-preserving respellings of repaired code must stay silent
+ ("c07r9-rename-silent", "C07", "", "css/parser/tokenizer.go", "\t\tpos := tk.pos + 1\n\t\t// Name-start code point\n\t\tnameStart := pos < len(tk.src) && (isNameStart(tk.src, pos) || tk.src[pos] == '-')\n\t\t// Valid escape\n\t\tvalidEscape := pos < len(tk.src) && tk.src[pos] == '\\\\' && !bytes.HasPrefix(tk.src[pos:], []byte(\"\\\\\\n\"))", "\t\tnxt := tk.pos + 1\n\t\tif nxt >= len(tk.src) {\n\t\t\treturn false\n\t\t}\n\t\tnameStart := isNameStart(tk.src, nxt) || tk.src[nxt] == '-'\n\t\tvalidEscape := tk.src[nxt] == '\\\\' && !bytes.HasPrefix(tk.src[nxt:], []byte(\"\\\\\\n\"))"),
+ ("c01r12-order-silent", "C01", "", "html/boxes/boxes.go", "\t\tif childStart != \"\" {\n\t\t\tstart = childStart\n\t\t}\n\t\tif childEnd != \"\" {\n\t\t\tend = childEnd\n\t\t}", "\t\tif childEnd != \"\" {\n\t\t\tend = childEnd\n\t\t}\n\t\tif childStart != \"\" {\n\t\t\tstart = childStart\n\t\t}"),
+ ("c03r10-reset-silent", "C03", "", "html/tree/style.go", "\t\t\t\t\t// the error is local to this rule : the following\n\t\t\t\t\t// (nested) rules are not concerned\n\t\t\t\t\tvar err error\n", "\t\t\t\t\terr = nil // local to this rule\n"),
+ ("c01r18-else-silent", "C01", "", "text/engine_pango.go", "\t\tif nextWordBoundaries != nil {\n\t\t\t// We have a word to hyphenate\n", "\t\tif hasWord := nextWordBoundaries != nil; hasWord {\n\t\t\t// We have a word to hyphenate\n"),
 ]
 
 def main():
